@@ -2,6 +2,7 @@
 From Coq Require Import List Ascii String.
 From GT Require Import Base.GoStr Md.Parser Tree.Tree Tree.Gen Tree.Grower Api.Simple Fs.FsModel Api.Programmable
   Spec.Spelling Proofs.GenItems Proofs.Programmable Proofs.SpelledTop.
+From GT Require Import Conc.Splitter Proofs.SplitSchedule Proofs.MassiveFront.
 Import ListNotations.
 
 (* Any two documents whose rows the line parser reads as the pre-order items of the same
@@ -28,6 +29,21 @@ Theorem C15_spelling : forall sp1 sp2 f, spells sp1 f -> spells sp2 f ->
   (forall w c s d, pstep w (PMdVerify c s d (bytes_of sp1)) = pstep w (PMdVerify c s d (bytes_of sp2))).
 Proof. exact spelling_independent. Qed.
 Print Assumptions C15_spelling.
+
+(* with the massive option: two heading-free spellings of one forest give the same roots, whatever
+   the interleaving of the generate workers in either run (each equals the forest's tries) *)
+Theorem C15_massive_roots : forall sp1 sp2 f sched1 sched2,
+  spells sp1 f -> sp_heading sp1 = false -> spells sp2 f -> sp_heading sp2 = false ->
+  interleave (split_rows (map fst (sp_rows sp1))) sched1 ->
+  interleave (split_rows (map fst (sp_rows sp2))) sched2 ->
+  roots_of (results_by_block (List.length (split_rows (map fst (sp_rows sp1)))) (run_sched p0 sched1)) =
+  roots_of (results_by_block (List.length (split_rows (map fst (sp_rows sp2)))) (run_sched p0 sched2)).
+Proof.
+  intros sp1 sp2 f sched1 sched2 H1 N1 H2 N2 I1 I2.
+  destruct (massive_front_end sp1 f H1 N1) as (_ & _ & R1). destruct (massive_front_end sp2 f H2 N2) as (_ & _ & R2).
+  rewrite (proj1 (R1 sched1 I1)), (proj1 (R2 sched2 I2)). reflexivity.
+Qed.
+Print Assumptions C15_massive_roots.
 
 Definition s (x : string) : str := list_ascii_of_string x.
 Definition crlf : str := [c_cr; c_lf].
